@@ -46,6 +46,8 @@ def cfgs(tier, seed):
         shards.append({'kind': 'public', 'dlm': dlm, 'syms': syms, 'policy': 'quoted', 'maxlen': pub})
     # the other policies at helper level
     shards.append({'kind': 'plain', 'syms': ['"', ',', ' ', o[0]], 'maxlen': big - 1})
+    # whitespace policy: only U+0020 separates; tab, NBSP, vertical tab and a Unicode space are ordinary characters
+    shards.append({'kind': 'plain', 'syms': [' ', o[0], '\t', '\xa0', '\x0b', '\u2003'], 'maxlen': 6 if tier == 'thorough' else 5})
     return shards
 
 
